@@ -309,3 +309,7 @@ def _siblings_unique(e):
         if r:
             return r
     return None
+
+
+def names_shape_no_templates(e):
+    return (e.tagName, [names_shape_no_templates(c) for c in child_elements(e) if not is_template(c)])
